@@ -445,7 +445,7 @@ func (fr *Frame) loopInvariants(lc *loopCtx, st *State, over map[*ssa.Phi]*Term)
 	// auto-derived counter invariants
 	if lc.spec == nil || !lc.spec.NoAuto {
 		for _, a := range fr.autoInvariants(lc, over) {
-			out = append(out, invT{t: a, props: []string{"C13"}, src: "auto"})
+			out = append(out, invT{t: a, props: []string{"C13"}, src: "auto:" + trunc(a.String(), 40)})
 		}
 	}
 	if lc.spec != nil {
